@@ -350,9 +350,11 @@ class Reader:
         self.consume("=")
         if self.peek == "ID":
             a = self.parse_id()
-            if self.peek in ir.Binop.ops:
-                # Go for binop
-                op = self.consume(self.peek)[1]
+            if self.peek in ir.Binop.ops or (
+                self.peek == "ID" and self.token[1] in ir.Binop.ops
+            ):
+                # Go for binop (rol and ror are lexed as identifiers)
+                op = self.next_token()[1]
                 b = self.parse_id()
                 a = self.find_value(a, ty=ty)
                 b = self.find_value(b, ty=ty)
